@@ -300,6 +300,37 @@ def check_profile(case):
     return info
 
 
+def wide_window_cells(tier):
+    """Bandwidths of several hundred samples, where min_detection_interval may be 256 and more (it is bounded by bandwidth / 2):
+    prescribed score curves with exceedance runs of min_detection_interval - 1, exactly min_detection_interval, + 1 and > 2 x it."""
+    for bw, mdi in ([(520, 256), (520, 259), (600, 255), (1100, 513)] + ([(520, 257), (2100, 1024), (700, 300)] if tier != "quick" else [])):
+        yield {"bandwidth": bw, "min_detection_interval": mdi}
+
+
+def check_wide_window(case):
+    bw, mdi = case["bandwidth"], case["min_detection_interval"]
+    profile = []
+    for length, where in ((mdi + 1, "inner"), (mdi - 1, "first"), (mdi, "last"), (2 * mdi + 5, "first"), (mdi, "two_equal")):
+        profile += [1.0, 0.0, 1.0]
+        run = [2.0] * length
+        if where == "inner":
+            run[length // 3] = 5.0
+        elif where == "first":
+            run[0] = 5.0
+        elif where == "last":
+            run[-1] = 5.0
+        else:
+            run[0] = run[-1] = 5.0
+        profile += run
+    profile += [0.0, 0.0]
+    n = 2 * bw + len(profile) - 1
+    full = [0.0] * bw + profile + [0.0] * (n + 1 - bw - len(profile))
+    info = check_profile({"params": {"change_score": {"cls": "ProfileChangeScore", "profile": full}, "bandwidth": bw, "threshold_scale": None,
+                                     "level": 0.01, "min_detection_interval": mdi}, "n": n, "target_threshold": 1.5})
+    info["classes"] = list(info["classes"]) + [f"bandwidth={bw}"]
+    return info
+
+
 # ------------------------------------------------------------------ default settings on realistic series
 
 
@@ -368,6 +399,11 @@ FACETS = [
                 "peak is the first, last or an inner position (or two equal maxima), separated by 1-3 sub-threshold positions; bandwidth 4..16, "
                 "min_detection_interval 1..7, threshold placed between the integer levels; peak-of-run model; non-trivial = >= 1 changepoint"),
           n_quick=400, n_thorough=6000, shards_quick=8, shards_thorough=16),
+    Facet(name="wide_windows", kind="enumerate", enumerate=wide_window_cells, check=check_wide_window, exhaustive=True, time_limit=300,
+          rule=("bandwidths 520-1100 (thorough: 2100) with min_detection_interval 255 / 256 / 259 / 513 (thorough: 1024): prescribed score curves "
+                "(user-defined ProfileChangeScore) with exceedance runs of min_detection_interval - 1, exactly min_detection_interval, + 1 and more "
+                "than twice it, peaks first / last / inner / two equal; same peak-of-run model; non-trivial = >= 1 changepoint"),
+          shards_quick=4, shards_thorough=7, max_samples=1),
     Facet(name="default_settings", kind="enumerate", enumerate=default_cells, check=check_default, exhaustive=True, time_limit=300,
           rule=("MovingWindow with its default hyper-parameters (CUSUM, bandwidth 30, scale 2, level 0.01, min_detection_interval 1; variants: tuned threshold, "
                 "bandwidth 10, min_detection_interval 5, scale 1, GaussianVar cost) on realistic series of 61-400 samples (seeded); same score and "
